@@ -184,10 +184,16 @@ def run_config(chk, ctx, name):
                "the deny rule matched nothing there, so pruning proves nothing")
     # E4: single producer of Signature for the in-memory key
     sign_fn = A.fn("sign")
+    # the byte-level function and the in-memory key must run the same signing core (the function holding the callback call):
+    # whether the key method calls `sign` or that core directly is a matter of style
+    _t, _sites = c04.find_core(F, [sign_fn])
+    core_fn = _sites[0][0] if len(_sites) == 1 else None
     for m in A.method("SigningKey", "try_sign_with_aux") + A.method("SigningKey", "try_sign", "signature::signer::SignerMut"):
         t = F.reachable([m])
-        chk.ob("E4.signing-key-delegates-to-sign", "%s[%s]" % (core.strip_generics(m), name), sign_fn in t,
-               "%s does not reach the byte-level sign function %s" % (m, sign_fn))
+        _t2, s2 = c04.find_core(F, [m])
+        same = core_fn is not None and len(s2) == 1 and s2[0][0] == core_fn
+        chk.ob("E4.signing-key-delegates-to-sign", "%s[%s]" % (core.strip_generics(m), name), same,
+               "%s does not run the signing core of the byte-level sign function (%s): the in-memory key could diverge from a reloaded key" % (m, core_fn))
     # the in-memory key stores the complete successor key the byte-level function hands out
     c04.in_memory_key_rules(chk, F, A, "" if name == "default" else "[%s]" % name, "E4")
     # who constructs `Signature`?
